@@ -385,6 +385,7 @@ def run_impl(case):
     import heapq
 
     hb = case["hb"]
+    T0 = case.get("t0", globals()["T0"])      # epoch override: only the one-off "first second of the epoch" probe uses it
     d = Driver(hb, T0, case.get("init", "logon"))
     res = {"events": [], "rows": [], "note": ""}
     try:
@@ -503,10 +504,12 @@ def _txt(rid):
 
 def oracle(case, res):
     """Returns a list of (what, class-or-None).  Decided on observable behaviour only: frames written
-    (time, type, 112), connection state / connectedness over time, on_disconnect."""
+    (time, type, 112), connection state / connectedness over time, on_disconnect.  The class named for a
+    failure is the known-finding class whose predicate (CLASSES) accepts the observed run, else None."""
     hb = case["hb"]
     H = hb * 1000
     out = []
+    facts = {"hb": hb}
     if case.get("init", "logon") != "logon":
         return out                                   # the property speaks about an ACTIVE session
     ACTIVE = res["init"][0]
@@ -569,8 +572,9 @@ def oracle(case, res):
     # --- at most one TestRequest outstanding ------------------------------------------------------
     if max_out[0] > 1:
         t, src, lst = max_out[1]
+        facts["double"] = lst
         out.append(("%d TestRequests outstanding at t=%d: %r" % (max_out[0], t, lst),
-                    "raw-testrequest-while-pending" if any(r[1] == "raw" for r in lst) else None))
+                    classify("raw-testrequest-while-pending", facts)))
     disc_t = disc[1] if disc else None
     refs = [(-1, T0)] + [(i, t) for (i, t, _, _) in inbound]
     in_times = [t for (_, t, _, _) in inbound]
@@ -619,13 +623,11 @@ def oracle(case, res):
         L1 = not late
         gaps_from = [T0] + [t for (i, t, _, _) in inbound if i < disc[0]]
         L2 = all(b - a <= H for a, b in zip(gaps_from, gaps_from[1:] + [disc_t]))
+        facts.update(wd_disc=disc_t, answered_all=L1, traffic_continues=L2,
+                     never_answered=[p for p in late if answered(p, disc[0]) is None],
+                     overdue=[p for p in late if disc_t > p["t"] + D])
         if L1 or L2:
-            if hb == 0:
-                cls = "hb0-immediate-disconnect"
-            elif L2 and not L1:
-                cls = "unanswered-probe-while-traffic-continues"
-            else:
-                cls = None
+            cls = classify("hb0-immediate-disconnect", facts) or classify("unanswered-probe-while-traffic-continues", facts)
             why = ("every TestRequest was answered in time (or still had time)" if L1 else
                    "valid traffic never paused longer than %d s (unanswered: %r)" % (hb, [(p["t"], p["rid"]) for p in late]))
             out.append(("watchdog disconnected the peer at t=%d although %s" % (disc_t, why), cls))
@@ -639,21 +641,27 @@ def oracle(case, res):
 # ----------------------------------------------------------------------------------------------
 # known-finding class predicates (decided on the concrete case + observed run)
 # ----------------------------------------------------------------------------------------------
-# The oracle names the class it believes applies; the predicates below re-decide it narrowly.
+# Each predicate is decided on facts the oracle computed from the observed run (never on the model).
 
-def kf_unanswered_probe(case, res, what):
-    """An outstanding TestRequest is never answered (in time) while valid traffic continues: the run ends in a
-    watchdog disconnect, some TestRequest written before it has no timely matching Heartbeat, and no two
-    consecutive valid inbound messages (nor the last one and the disconnect) are more than hb s apart."""
-    return case["hb"] >= 1 and "valid traffic never paused" in what
-
-
-def kf_hb0(case, res, what):
-    return case["hb"] == 0
+def kf_unanswered_probe(f):
+    """An outstanding TestRequest is never answered while valid traffic continues: hb >= 1; the run ends in a
+    watchdog disconnect; until then no two consecutive valid inbound messages (nor the last one and the
+    disconnect) are more than hb s apart; and a TestRequest written before the disconnect has no Heartbeat
+    echoing its id at all although more than 2*hb - 1 s have passed since it was written."""
+    return (f["hb"] >= 1 and f.get("wd_disc") is not None and f.get("traffic_continues") is True
+            and not f.get("answered_all") and any(p in f.get("overdue", []) for p in f.get("never_answered", [])))
 
 
-def kf_raw(case, res, what):
-    return any(e[0] == 3 for e in res["events"])
+def kf_hb0(f):
+    """hb = 0 and the watchdog dropped a peer that had no time at all to answer."""
+    return f["hb"] == 0 and f.get("wd_disc") is not None and f.get("answered_all") is True
+
+
+def kf_raw(f):
+    """More than one TestRequest outstanding and every one but the first was put on the wire by an application
+    call of send_msg(TestRequest) while the first was pending."""
+    lst = f.get("double") or []
+    return len(lst) > 1 and all(r[1] == "raw" for r in lst[1:])
 
 
 CLASSES = {
@@ -663,10 +671,8 @@ CLASSES = {
 }
 
 
-def classify(case, res, what, cls):
-    if cls is not None and CLASSES[cls](case, res, what):
-        return cls
-    return None
+def classify(cls, facts):
+    return cls if CLASSES[cls](facts) else None
 
 
 # ----------------------------------------------------------------------------------------------
@@ -682,7 +688,7 @@ RIDS = ["1", "42", "0", "TEST", "7x", " 5", "1000000", "-3", "00"]
 
 
 def gen_cases(rng, tier_all):
-    hbs = list(range(1, 61)) if tier_all else [1, 2, 3, 4, 5, 7, 10, 15, 29, 30, 45, 60]
+    hbs = list(range(1, 61)) if tier_all else [1, 2, 3, 4, 5, 6, 7, 8, 10, 12, 15, 20, 29, 30, 31, 45, 59, 60]
     phases_all = [0, 125, 250, 375, 500, 625, 750, 875, 1000]
     cases = []
 
@@ -692,7 +698,7 @@ def gen_cases(rng, tier_all):
 
     for hb in hbs:
         H = hb * 1000
-        phases = phases_all if tier_all else ([0] + rng.sample(phases_all[1:], 2))
+        phases = phases_all if tier_all else ([0] + rng.sample(phases_all[1:], 3))
         for ph in phases:
             # silent from t0
             add("silent", hb, ph, 3 * H + 3000)
@@ -716,7 +722,7 @@ def gen_cases(rng, tier_all):
             # probe answers delayed by 0 .. 2.5 intervals
             delays = sorted({0, Q, H // 2, H, 2 * H - 1000 - Q, 2 * H - 1000, 2 * H - 1000 + Q, 2 * H - Q, 2 * H,
                              2 * H + Q, 2 * H + 1000, 2 * H + 1000 + Q, (5 * H) // 2})
-            for dl in (delays if tier_all else rng.sample(delays, 5)):
+            for dl in (delays if tier_all else rng.sample(delays, 7)):
                 if dl < 0:
                     continue
                 dl = q(dl)
@@ -741,7 +747,7 @@ def gen_cases(rng, tier_all):
             add("app", hb, rng.choice(phases_all), 4 * H + 3000, script,
                 rng.choice([None, {"delay": q(rng.randrange(0, 2 * H)), "mode": "match", "limit": None}]))
         # random mixtures
-        for _ in range(6 if tier_all else 3):
+        for _ in range(8 if tier_all else 5):
             n = rng.randrange(0, 12)
             script = []
             for _ in range(n):
@@ -809,7 +815,20 @@ def worker_main():
 
 
 def run_workers(cases, nproc=8, timeout=300):
-    """Runs cases in child interpreters; returns list of results (None + reason for a case whose worker died)."""
+    """run_workers_once, then re-runs (in fresh workers) the cases that were queued behind a case that hung."""
+    results = run_workers_once(cases, nproc, timeout)
+    for _ in range(4):
+        todo = [i for i, r in enumerate(results) if r.get("skipped")]
+        if not todo:
+            break
+        again = run_workers_once([cases[i] for i in todo], nproc, timeout)
+        for i, r in zip(todo, again):
+            results[i] = r
+    return results
+
+
+def run_workers_once(cases, nproc=8, timeout=300):
+    """Runs cases in child interpreters; returns list of results (an {"error": ...} record for a case whose worker died)."""
     import subprocess
 
     from vlib import core
@@ -908,7 +927,7 @@ def check_case(ctx, case, res, model_rows):
     if res.get("note"):
         ctx.notes.append(res["note"][:200])
     for what, cls in oracle(case, res):
-        ctx.fail({"case": slim(case)}, what, classify(case, res, what, cls))
+        ctx.fail({"case": slim(case)}, what, cls)
     if model_rows is not None:
         if not isinstance(model_rows, list) or (model_rows and model_rows[0] == -1):
             ctx.disagree({"case": slim(case)}, "rows", model_rows, "watchdog-model-request")
@@ -922,9 +941,26 @@ def check_case(ctx, case, res, model_rows):
                 ctx.disagree({"case": slim(case)}, len(res["rows"]), len(model_rows), "watchdog-length")
 
 
+def translator_misses():
+    """Names the ast extractor cannot find in the repository under test (same function the translator runs)."""
+    from translator import gen_session
+    from vlib import core
+    try:
+        with open(os.path.join(core.REPO, gen_session.SOURCES[0])) as f:
+            return list(gen_session.extract(f.read())[1])
+    except Exception as e:
+        return ["extractor failed: %s" % type(e).__name__]
+
+
 def run(ctx):
     t_start = _time.time()
-    cases = corpus_cases() + gen_cases(ctx.rng, ctx.tier == "thorough")
+    misses = translator_misses()
+    if misses:
+        # DESIGN.md 3.1: a miss is not an alarm; the constants keep their defaults and the correspondence
+        # (which crosses every threshold from both sides) is escalated to thorough depth
+        ctx.notes.append("translator_miss: " + ", ".join(misses) + " (correspondence escalated to thorough depth)")
+        ctx.extra["translator_miss"] = misses
+    cases = corpus_cases() + gen_cases(ctx.rng, ctx.tier == "thorough" or bool(misses))
     results = run_workers(cases, nproc=12, timeout=ctx.scale(200, 1500))
     ctx.extra["impl_wall_s"] = round(_time.time() - t_start, 1)
     model_out = [None] * len(cases)
@@ -969,7 +1005,7 @@ def replay(path):
             print("t=%+.3f s %s -> %s state=%s" % ((e[1] - T0) / 1000.0, e, outs, snap))
     fails = oracle(case, res)
     for what, cls in fails:
-        print("ORACLE: %s [class %s]" % (what, classify(case, res, what, cls)))
+        print("ORACLE: %s [class %s]" % (what, cls))
     return 1 if fails else 0
 
 
